@@ -18,6 +18,7 @@ mod diff;
 #[cfg(feature = "std")]
 mod mon_exec;
 mod mon_c06;
+mod mon_c02;
 mod mon_text;
 mod mon_c20;
 #[cfg(any(feature = "std", feature = "stdlite"))]
@@ -85,6 +86,9 @@ fn main() {
         #[cfg(feature = "std")]
         "C01" | "C03" | "C04" => mon_exec::run(&a.prop.clone(), &a, &mut rep),
         "C06" => mon_c06::run(&a, &mut rep),
+        "C02" => mon_c02::run(&a, &mut rep, false),
+        #[cfg(feature = "std")]
+        "C11" => mon_c02::run(&a, &mut rep, true),
         #[cfg(any(feature = "std", feature = "stdlite"))]
         "C19" => mon_c19::run(&a, &mut rep),
         "C20" => mon_c20::run(&a, &mut rep),
